@@ -192,6 +192,7 @@ def check_method(ck, facts, adapter, trait, name, fn, spec):
     # the result goes back to the caller with only the allowed post-processing
     from mirutil import forward_aliases
     cur = t["dest"][0]
+    curt = t
     steps = []
     okpost = True
     for _ in range(6):
@@ -206,6 +207,10 @@ def check_method(ck, facts, adapter, trait, name, fn, spec):
                 nxt = ct
                 break
         if nxt is None:
+            from mirutil import is_identity_rewrap
+            if is_identity_rewrap(f, curt, err_ctor_ok=True):
+                steps.append("match (Ok(v) => Ok(v), Err(e) => Err(wrap(e))): the long form of map_err")
+                break
             okpost = False
             steps.append("<lost>")
             break
@@ -220,6 +225,18 @@ def check_method(ck, facts, adapter, trait, name, fn, spec):
                         fi = it["args"][1]
                         if fi[0] == "k" and fi[1].get("kind") == "fn":
                             conv = fi[1]["def"].split("::")[-1]
+            elif clo[0] == "const" and clo[1].get("kind") == "fn":
+                # a private helper instead of the closure: `fn quad_result_into_triple(r) -> .. { match r { Ok(q) => Ok(q.into_triple()), Err(e) => Err(e) } }`
+                hf = facts.fns.get(clo[1].get("def") or "")
+                if hf is not None and hf.crate == f.crate:
+                    hn = [(it["f"].get("name") or "") for _, it in hf.calls()]
+                    convs = [n.split("::")[-1] for n in hn if re.search(r"::(into_triple|into_quad)$", n)]
+                    rest = [n for n in hn if not re.search(r"::(into_triple|into_quad)$|Result::<T, E>::map$", n)]
+                    mapped = [it for _, it in hf.calls() if call_name_matches(it, r"Result::<T, E>::map$") and it["args"][1][0] == "k"]
+                    if not convs and mapped:
+                        convs = [mapped[0]["args"][1][1].get("def", "").split("::")[-1]]
+                    if len(set(convs)) == 1 and not rest:
+                        conv = convs[0]
             steps.append("map(%s)" % conv)
             if conv != spec.get("post"):
                 okpost = False
@@ -229,6 +246,7 @@ def check_method(ck, facts, adapter, trait, name, fn, spec):
             steps.append(nm.split("::")[-1])
             okpost = False
         cur = nxt["dest"][0]
+        curt = nxt
     if spec.get("post") in ("into_triple", "into_quad") and not any(x == "map(%s)" % spec["post"] for x in steps):
         okpost = False
     if not okpost:
